@@ -17,6 +17,7 @@ func init() {
 	VerifHarnesses["H_C12_stream_alias"] = H_C12_stream_alias
 	VerifHarnesses["H_C04_roundtrip"] = H_C04_roundtrip
 	VerifHarnesses["H_C05_skipped_member"] = H_C05_skipped_member
+	VerifHarnesses["H_C05_unmarshal_iface"] = H_C05_unmarshal_iface
 }
 
 // ---------------------------------------------------------------- C15: keys select fields
@@ -363,4 +364,31 @@ func H_C12_stream_alias(t *verifrt.T) {
 	var v interface{}
 	err3 := dec.Decode(&v)
 	t.Assert("then-eof", err3 != nil)
+}
+
+// whole documents through the public entry point: json.Unmarshal(doc, &interface{})
+// for every byte string of length N (NUL included): accept <=> RFC 8259 modulo the
+// recorded relaxations.
+func H_C05_unmarshal_iface(t *verifrt.T) {
+	n := t.Param("N")
+	doc := t.Bytes("doc", n)
+	orig := make([]byte, n)
+	copy(orig, doc)
+	var v interface{}
+	err := Unmarshal(doc, &v)
+	accepted := err == nil
+	t.ObserveBool("accepted", accepted)
+	strict := verifref.ValidJSON(orig, verifref.Relax{})
+	num := verifref.ValidJSON(orig, verifref.Relax{NumberGo: true})
+	ctrl := verifref.ValidJSON(orig, verifref.Relax{CtrlInString: true})
+	lax := verifref.ValidJSON(orig, verifref.Relax{NumberGo: true, CtrlInString: true})
+	and, implies := verifrt.And, verifrt.Implies
+	t.Known("D3-number-forms-outside-RFC-accepted", and(accepted, !strict, num))
+	t.Known("D4-raw-control-character-in-string-accepted", and(accepted, !strict, ctrl))
+	// (D5, an embedded NUL ending the input, is repaired: no relaxation for it)
+	t.Assert("accept-only-listed-language", implies(accepted, lax))
+	t.Assert("valid-json-accepted", implies(strict, accepted))
+	t.Assert("input-unchanged", verifref.BytesEq(doc, orig))
+	t.Cover("accepted-valid", and(accepted, strict))
+	t.Cover("rejected-invalid", and(!accepted, !lax))
 }
